@@ -408,7 +408,7 @@ UseJustified(w, m, st, r) ==
             /\ b[i].k = "import"
             /\ \E it \in Range(b[i].items) : it.as = "" /\ it.path[1] = e[1] /\ IsPrefix(q, it.path)
             /\ \A j \in (i + 1)..(r - 1) :
-                 StmtBindsName(b[j], e[1]) =>
+                 e[1] \in BoundNames(w, m, b[j]) =>
                    (b[j].k = "import" /\ \A it \in Range(b[j].items) : it.path[1] = e[1] => it.as = "")
 
 SelfContained(w) ==
@@ -520,8 +520,18 @@ TagsOfModule(w, m, exported) ==
 
 \* the written modules, and the modules a C05 request takes apart
 TaggedModules(w) == Range(w.open) \cup w.msrc \cup w.mdst
+\* a module that may be relocated, or that sits next to one, re-exports a name its imports bind
+\* (only this feature is looked at for the fixed modules of a relocation world)
+ReexportsImported(w, m, exported) ==
+  LET own == RunEntry(w, m).ns[m]
+      listed == IF "__all__" \in DOMAIN own THEN Range(own["__all__"].x) ELSE {}
+  IN (exported \ listed) \cap ImportedNames(w, m) # {}
+
 TagsWith(w, exports) ==
   UNION { TagsOfModule(w, m, {q[1] : q \in exports[m]}) : m \in TaggedModules(w) }
+  \cup (IF \E m \in Mods(w) \ TaggedModules(w) :
+             w.reloc # {} /\ ReexportsImported(w, m, {q[1] : q \in exports[m]})
+        THEN {"reexport"} ELSE {})
 
 Info(w) ==
   LET ex == ExportsAll(w) IN
@@ -1089,6 +1099,10 @@ RelocateLegal(w, old, new) ==
   \* the new top-level name is not in use for something else in any module that will spell it
   /\ \A m \in Mods(w) :
        PlainOld(old, RelToAbsOf(w, m, w.body[m])) # {} => new[1] = old[1] \/ new[1] \notin AllBound(w, m)
+  \* nobody star-imports the package the module leaves or the one it joins (the set of names such
+  \* an import provides would change with the package's submodule attributes)
+  /\ \A m \in Mods(w) : \A k \in DOMAIN w.body[m] :
+       IsStar(w.body[m][k]) => FromTarget(w, m, w.body[m][k]) \notin {Front(old), Front(new)}
   /\ Acyclic(RelocateOp(w, old, new))
 
 ToPackageOp(w, m) ==
